@@ -1548,6 +1548,14 @@ def driver_source(specs, status, src_root):
                                'if ((fromJ (argAt args 12)) : List Nat).contains k then Except.error Err.other '
                                'else Except.ok ((((fromJ (argAt args 13)) : List (Nat × Nat)).lookup k))) ' + me.replace("K", "14") + ")")
             continue
+        if spec["lean"] == "connect_components":
+            # `comp.connect`: scripted — the world holds, per component, the statuses its further connect calls will report
+            imports.append("import FinamModel.Translated.connect_components")
+            cases.append('  | "connect_components" => toJ (Tr.connect_components (φ := List (Nat × List Int)) (fromJ (argAt args 0)) (fromJ (argAt args 1)) '
+                         '(fromJ (argAt args 2)) (fun w st c => match w.lookup c with '
+                         '| some (s :: rest) => Except.ok (Py.dictSet st c s, (w.filter (fun p => p.1 != c)) ++ [(c, rest)]) '
+                         '| _ => Except.error Err.other) (fromJ (argAt args 3)))')
+            continue
         if spec["lean"] == "TimeDelayAdapter_get_data":
             # `with_delay` of the subclass: the translated `DelayFixed.with_delay` with the adapter's delay and initial time
             imports.append("import FinamModel.Translated.TimeDelayAdapter_get_data")
